@@ -5,28 +5,33 @@ SPEC = {
     "stages": [{"name": "main", "harness": "C11_radiotap.cpp", "config": "san",
                 "deadline": {"quick": 600, "thorough": 3000}}],
     "technique": "explicit-state BFS to fixpoint over the implementation with lock-step reference model",
-    "rule": ("one BFS to fixpoint per root over (real RadioTap object, copied per state) x (model: field -> last written value); "
-             "roots: default-constructed header, parsed header with an empty present word, parsed header with the fields "
-             "{rate, channel, dbm_noise, db_signal, tx_flags, xchannel}, each with a 10-byte 802.11 ACK frame as inner PDU; "
-             "alphabet: the 14 field setters of the property (tsft, flags, rate, channel, dbm_signal, dbm_noise, signal_quality, "
-             "antenna, db_signal, rx_flags, tx_flags, data_retries, xchannel, mcs) with value v1; flags, the one field whose VALUE steers "
-             "serializer and parser, has one value per steering-bit combination in BOTH tiers: 0x12 (FCS: serialize() appends a 4-byte FCS trailer, "
-             "the parser strips it), 0x0a (plain), 0x42 (FAILED_FCS without FCS: legal, must round-trip), thorough adds 0xc5; FCS|FAILED_FCS is kept "
-             "out (RadioTap(buffer) rejects it by design); thorough runs four BFS per root, each adding a second value v2 for a quarter of the other "
-             "fields ({tsft, channel, signal_quality, xchannel}, {rate, dbm_signal, rx_flags}, {tx_flags, mcs, dbm_noise}, {antenna, db_signal, "
-             "data_retries}); state key = options_payload_ bytes x model. "
-             "On EVERY transition: options_payload_ == canonical layout written by the harness' own writer (radiotap.org size/alignment "
-             "table, offsets from the start of the RadioTap header; same size, present word and field bytes at the same offsets, gap content "
-             "not judged), present() == written fields, each of the 14 getters == last write or throws field_not_present, serialize(): "
-             "it_len == header bytes == header_size(), serialized header == options_payload_, inner frame behind it, total size == header + frame + "
-             "(4 iff the model's flags value has the FCS bit) == trailer_size() model; RadioTap(serialize()) must be accepted and "
-             "returns the same payload, present word, 14 getter results and a Dot11Ack with the same bytes; no ASan/UBSan report; every new state's history is re-played on a fresh object. "
-             "distinct_nontrivial = product states whose layout contains at least one alignment gap."),
-    "claim": ("Per root the reachable product state space (all subsets of the 14 fields above the root's set x the value choices) is "
+    "rule": ("BFS to fixpoint per configuration (root x value set) over (real RadioTap object, a bare header, copied per state; the explored objects "
+             "only ever see setters) x (model: field -> last written value); roots: default-constructed header, parsed header with an empty "
+             "present word, parsed header with {rate, channel, dbm_noise, db_signal, tx_flags, xchannel}; alphabet: the 14 field setters of the "
+             "property with value v1; flags, the one field whose VALUE steers serializer and parser, with one value per steering-bit combination in "
+             "BOTH tiers: 0x12 (FCS), 0x0a (plain), 0x42 (FAILED_FCS without FCS), thorough adds 0xc5; FCS|FAILED_FCS is kept out (documented "
+             "rejection by RadioTap(buffer)); thorough: the three roots with a second value for signal_quality, data_retries, mcs (the fields no root "
+             "carries) and, from the empty root, a second value for the other ten fields four/four/two at a time; state key = options_payload_ bytes x "
+             "model. Each configuration is run by 5 jobs that execute the same BFS (setter + canonical-layout comparison on every transition) and "
+             "evaluate the rest of the oracle for the source states they own (hash of the key mod 5), so every (state, setter) transition is judged "
+             "exactly once. GETTER CALLS ARE PART OF THE HISTORY: per state, on one copy, a walk of 210 reads in which every ordered pair of the 14 "
+             "getters (a getter twice included) occurs as consecutive reads, every read judged against the model; per transition (state, set(G,v)) "
+             "and every field F present afterwards, on a fresh copy: get(F); set(G,v); get(F) with nothing in between, both reads judged "
+             "(insertion in front of / behind F, overwrite of G, F == G). Then on the transition itself: options_payload_ == canonical layout "
+             "written by the harness' own writer (radiotap.org size/alignment table, offsets from the start of the RadioTap header; gap content "
+             "not judged); on a copy: present() == written fields, each of the 14 getters == last write or throws field_not_present; wire round trip "
+             "in three shapes - header + 10-byte 802.11 ACK frame, the header ALONE (no inner PDU), header + zero-length RawPDU -: size() == "
+             "serialization length == header + inner + (4 iff the model's flags value has the FCS bit) == trailer_size() model, it_len == header "
+             "bytes == header_size(), serialized header == options_payload_; RadioTap(serialize()) must be accepted and return the same payload, "
+             "present word, 14 getter results and (ACK shape) a Dot11Ack with the same bytes / (other shapes) no payload; no ASan/UBSan report; "
+             "every new state's history is re-played on a fresh object (slice 0). states/transitions = owned, i.e. fully judged, ones; "
+             "bfs_* = raw explorer counts over all slices. distinct_nontrivial = product states whose layout contains at least one alignment gap."),
+    "claim": ("Per configuration the reachable product state space (all subsets of the 14 fields above the root's set x the value choices) is "
               "finite and explored to fixpoint, and every (state, setter) transition is executed and judged; because a state's future "
-              "depends only on options_payload_ (the key), this covers setter sequences of any length, order and repetition over the alphabet."),
+              "depends only on options_payload_ (the key), this covers setter sequences of any length, order and repetition over the alphabet; "
+              "reads are interleaved as every adjacent pair of getters per state and every get(F); set(G); get(F) triple per transition."),
     "note": ("Trusted: sanitizers, the harness' canonical writer and its radiotap.org field table. Bounds: three roots, one or two values "
-             "per field, first radiotap namespace only (no extended present words / vendor namespaces in roots), flags values without the FCS|FAILED_FCS combination "
+             "per field, read interleavings of depth get-get and get-set-get (hidden getter-side state deeper than that is not explored), first radiotap namespace only (no extended present words / vendor namespaces in roots), flags values without the FCS|FAILED_FCS combination "
              "(RadioTap(buffer) rejects those frames by design); the FCS value itself is not judged."),
     "assumptions": ["field sizes/alignments as published on radiotap.org (TSFT 8/8, CHANNEL 4/2, LOCK_QUALITY 2/2, RX/TX_FLAGS 2/2, XCHANNEL 8/4, MCS 3/1, rest 1/1)",
                     "parsed roots are well-formed single-namespace headers followed by a 10-byte ACK frame",
